@@ -485,15 +485,13 @@ func TestC01(t *testing.T) {
 
 	flushSeq := func() {
 		if seqFile != nil {
-			rep.CoqFiles = append(rep.CoqFiles, seqFile.finish(t, dir))
-			rep.CaseFiles = append(rep.CaseFiles, writeJSONL(t, dir, seqFile.name+".jsonl", seqJL))
+			seqFile.finishSharded(t, dir, rep, seqJL, 400)
 			seqFile, seqJL = nil, nil
 		}
 	}
 	flushConc := func() {
 		if concFile != nil {
-			rep.CoqFiles = append(rep.CoqFiles, concFile.finish(t, dir))
-			rep.CaseFiles = append(rep.CaseFiles, writeJSONL(t, dir, concFile.name+".jsonl", concJL))
+			concFile.finishSharded(t, dir, rep, concJL, 400)
 			concFile, concJL = nil, nil
 		}
 	}
